@@ -28,12 +28,18 @@ RFT = {"lib/tree_decode.c": ["read_from_tree"]}
 RFTSTUB = "read_from_tree: yields the harness' arbitrary command code (< NUM_CODES) for the code tree and an arbitrary offset symbol for the offset tree, consuming no bits (tree walk vs canonical codewords: tree.*)"
 
 
-def cmd_h(tag, defs, maxlen, flags=(), tier="both", timeout=300, mem_gb=4, bounds=""):
-    return dict(name="cmd." + tag, src="C01/cmd.c", defines=defs, rename_defs=rn(RFT),
-                unwindset={"copy_from_history.0": maxlen + 1, "bs_ref.0": 16, "harness.0": 5, "harness.1": 65, "harness.2": 65},
-                flags=list(flags), tier=tier, timeout=timeout, mem_gb=mem_gb, bounds=bounds, stubs=[SPECSTUB, RFTSTUB],
+OUTB = {"lib/lh_new_decoder.c": ["output_byte"]}
+
+
+def cmd_h(tag, defs, maxlen, flags=(), tier="both", timeout=300, mem_gb=4, bounds="", backend="cadical", step=False, entry="harness"):
+    lk = "LK" in defs or "REAL_LK7" in defs
+    return dict(name="cmd." + tag, src="C01/cmd.c", entry=entry, defines=defs + (["STEPWISE"] if step else []),
+                rename_defs=rn(dict(RFT, **OUTB)) if step else rn(RFT),
+                unwindset={"copy_from_history.0": maxlen + 1, "bs_ref.0": 16, "harness.0": 5, "harness.1": 65, "harness_outbyte.0": 515},
+                flags=list(flags), backend=backend, tier=tier, timeout=timeout, mem_gb=mem_gb, bounds=bounds,
+                stubs=[SPECSTUB, RFTSTUB] + (["output_byte: monitor wrapper that checks the byte-at-a-time LZ77 step and calls the real output_byte"] if step else []),
                 units=["lib/lh_new_decoder.c:lha_lh_new_read,read_code,copy_from_history,read_offset_code,output_byte"
-                       + (",lhark_decode_copy_count,lhark_read_offset_code" if "LK" in defs or "REAL_LK7" in defs else "")])
+                       + (",lhark_decode_copy_count,lhark_read_offset_code" if lk else "")])
 
 
 HARNESSES = [
@@ -57,23 +63,29 @@ HARNESSES = [
     dict(name="tree.single.u8", src="C01/tree.c", entry="harness_single", defines=["NS=32", "ELEM8"], rename_defs=BITS, unwind=2, unwindset={"init_tree.0": 66, "harness_single.0": 5},
          units=["lib/tree_decode.c:set_tree_single,read_from_tree,init_tree"], timeout=120, stubs=[SPECSTUB],
          bounds="any symbol < 128, tree of 64 entries"),
-    # ---- H01.cmd
-    cmd_h("t32", ["HB=4", "OB=3", "LENMAX=32"], 32, tier="thorough", timeout=200),
-    cmd_h("t64", ["HB=4", "OB=3", "LENMAX=64"], 64, tier="thorough", timeout=200),
-    cmd_h("t32s", ["HB=4", "OB=3", "LENMAX=32", "SPLITPOS"], 32, tier="thorough", timeout=200),
-    cmd_h("t64s", ["HB=4", "OB=3", "LENMAX=64", "SPLITPOS"], 64, tier="thorough", timeout=200),
-    cmd_h("hb4", ["HB=4", "OB=3"], 256, tier="both", timeout=300,
-          bounds="template instantiated at HISTORY_BITS 4 (16-byte ring): window, position, code (literal / every length 3..256), offset symbol 0..4 and extra bits all symbolic; the ring wraps up to 16 times"),
-    cmd_h("hb6", ["HB=6", "OB=3"], 256, tier="both", timeout=600,
-          bounds="template instantiated at HISTORY_BITS 6 (64-byte ring): everything symbolic, lengths 3..256, offset symbols 0..6"),
-    cmd_h("lk.hb4", ["HB=4", "OB=4", "LK"], 514, tier="both", timeout=600,
-          bounds="LHARK variant of the template at HISTORY_BITS 4, NUM_CODES 289: all length classes 3..514 and distance codes 0..7 symbolic"),
-    cmd_h("lk.hb6", ["HB=6", "OB=4", "LK"], 514, tier="thorough", timeout=1800,
-          bounds="LHARK variant at HISTORY_BITS 6: all length classes 3..514, distance codes 0..11"),
-    cmd_h("lh5.real", ["REAL_LH5", "LENMAX=16"], 16, flags=["--arrays-uf-always"], tier="both", timeout=600, mem_gb=6,
-          bounds="real lib/lh5_decoder.c (16 KiB ring): arbitrary ring, symbolic position, offset symbol 0..14 with symbolic extra bits, literal or copy of length 3..16"),
-    cmd_h("lk7.real", ["REAL_LK7", "LENMAX=16"], 16, flags=["--arrays-uf-always"], tier="thorough", timeout=1800, mem_gb=6,
-          bounds="real lib/lk7_decoder.c (64 KiB ring): arbitrary ring, symbolic position, distance codes 0..31, copy length 3..16"),
-    cmd_h("lh7.real", ["REAL_LH7", "LENMAX=16"], 16, flags=["--arrays-uf-always"], tier="thorough", timeout=1800, mem_gb=6,
-          bounds="real lib/lh7_decoder.c (128 KiB ring): arbitrary ring, symbolic position, offset symbol 0..17, copy length 3..16"),
+    # ---- H01.cmd  (closed-form oracle for short copies; byte-at-a-time oracle for the whole length range)
+    cmd_h("closed.hb4", ["HB=4", "OB=3", "LENMAX=32"], 32, timeout=300,
+          bounds="closed-form oracle; template at HISTORY_BITS 4 (16-byte ring): window, position, offset symbol 0..4 + extra bits symbolic, literal or copy length 3..32 (ring wraps twice)"),
+    cmd_h("closed.lk.hb4", ["HB=4", "OB=4", "LK", "LENMAX=32"], 32, timeout=300,
+          bounds="closed-form oracle; LHARK template at HISTORY_BITS 4: length classes up to 32, distance codes 0..7"),
+    cmd_h("closed.hb6", ["HB=6", "OB=3", "LENMAX=16"], 16, timeout=400,
+          bounds="closed-form oracle; template at HISTORY_BITS 6 (64-byte ring): everything symbolic, copy length 3..16"),
+    cmd_h("closed.lh5", ["REAL_LH5", "LENMAX=16"], 16, flags=["--arrays-uf-always"], timeout=600, mem_gb=6,
+          bounds="closed-form oracle; real lib/lh5_decoder.c (16 KiB ring): arbitrary ring, symbolic position, offset symbol 0..14 with symbolic extra bits, literal or copy of length 3..16"),
+    cmd_h("closed.lk7", ["REAL_LK7", "LENMAX=16"], 16, flags=["--arrays-uf-always"], tier="thorough", timeout=1800, mem_gb=6,
+          bounds="closed-form oracle; real lib/lk7_decoder.c (64 KiB ring): arbitrary ring, symbolic position, distance codes 0..31, copy length 3..16"),
+    cmd_h("closed.lh7", ["REAL_LH7", "LENMAX=16"], 16, flags=["--arrays-uf-always"], tier="thorough", timeout=1800, mem_gb=6,
+          bounds="closed-form oracle; real lib/lh7_decoder.c (128 KiB ring): arbitrary ring, symbolic position, offset symbol 0..17, copy length 3..16"),
+    cmd_h("step.hb4", ["HB=4", "OB=3"], 256, step=True, timeout=300,
+          bounds="byte-at-a-time oracle; template at HISTORY_BITS 4: window, position, code (literal / every length 3..256), offset symbol 0..4, extra bits all symbolic; ring wraps up to 16 times"),
+    cmd_h("step.hb6", ["HB=6", "OB=3"], 256, step=True, timeout=300,
+          bounds="byte-at-a-time oracle; template at HISTORY_BITS 6: everything symbolic, every length 3..256, offset symbols 0..6"),
+    cmd_h("step.lk.hb4", ["HB=4", "OB=4", "LK"], 514, step=True, timeout=300,
+          bounds="byte-at-a-time oracle; LHARK template at HISTORY_BITS 4, NUM_CODES 289: every length class 3..514, distance codes 0..7"),
+    cmd_h("step.lk.hb6", ["HB=6", "OB=4", "LK"], 514, step=True, timeout=300,
+          bounds="byte-at-a-time oracle; LHARK template at HISTORY_BITS 6: every length class 3..514, distance codes 0..11"),
+    cmd_h("outbyte.hb4", ["HB=4", "OB=3"], 256, step=True, entry="harness_outbyte", timeout=120,
+          bounds="real output_byte from an arbitrary 16-byte ring / position / buffer fill"),
+    cmd_h("outbyte.lh5", ["REAL_LH5"], 256, step=True, entry="harness_outbyte", timeout=120, flags=["--arrays-uf-always"],
+          bounds="real output_byte of lib/lh5_decoder.c from an arbitrary 16 KiB ring / position / buffer fill"),
 ]
